@@ -171,8 +171,11 @@ func VerifC14FailedSnapshot() {
 	vndAssert(!snapshotting, "the commit recorder is still installed after Snapshot returned")
 
 	// the collection keeps working
+	// (a transaction over two columns: each column's updates travel in a page of their own, taken
+	// from the pool the snapshot's scratch page went back to)
 	werr := w.c.Query(func(txn *Txn) error {
 		w.oneOp(txn, 1|16, 1)
+		w.oneOp(txn, 4, 1)
 		return nil
 	})
 	vndAssert(werr == nil, "transaction after the snapshot failed")
